@@ -286,6 +286,33 @@ def make_methods(log: Log, is_async: bool) -> Dict[str, Callable[..., Any]]:
     fac['js_checked'] = js_checked
     fac['js_loose'] = js_loose
 
+    # a schema that says which draft it is written in: under draft-04 the number 3.0 is not an integer
+    @shared_validator.validate(schema={'$schema': 'http://json-schema.org/draft-04/schema#', 'type': 'object',
+                                       'properties': {'n': {'type': 'integer'}}, 'required': ['n']})
+    def js_draft4(n):
+        log.calls.append(('js_draft4', (n,), {}))
+        return ['js_draft4', n]
+
+    fac['js_draft4'] = js_draft4
+
+    def window(items, start=0, stop=3, step=1):
+        # several optional parameters: a by-name call may skip any of them
+        log.calls.append(('window', (items, start, stop, step), {}))
+        return ['window', items, start, stop, step]
+
+    fac['window'] = window
+
+    def mutate(lst, d=None):
+        # works on the values it was handed, in place (they belong to this request alone)
+        log.calls.append(('mutate', (list(lst) if isinstance(lst, list) else lst, dict(d) if isinstance(d, dict) else d), {}))
+        if isinstance(lst, list):
+            lst.append('seen')
+        if isinstance(d, dict):
+            d.setdefault('seen', True)
+        return ['mutate', lst, d]
+
+    fac['mutate'] = mutate
+
     # a constraint that lives in Annotated metadata, checked by the pydantic validator
     import typing as _t
 
@@ -405,8 +432,23 @@ def make_view(log: Log, is_async: bool):
     return ProbeView
 
 
+def make_broken_view(log: Log, is_async: bool):
+    class BrokenView(pjrpc.server.ViewMixin):
+        """its constructor fails (a key the application context lacks): handling fails before the method body"""
+
+        def __init__(self, context=None):
+            super().__init__()
+            raise KeyError('Zq7_marker_db')
+
+        def vm(self, a=0):
+            log.calls.append(('broken.vm', (a,), {}))
+            return ['broken', a]
+
+    return BrokenView
+
+
 METHOD_NAMES = ('js_checked', 'js_loose', 'slowfail', 'byid', 'wrapped', 'whoami', 'ctxp', 'slow', 'fac1', 'fac2', 'ok', 'noargs', 'echo', 'kwonly', 'rpcerr', 'typed', 'boom', 'ctxm', 'view.vm', 'typedctor', 'raiselib', 'pd_pos', '_under',
-                'ns._dotted', 'cowrapped')
+                'ns._dotted', 'cowrapped', 'js_draft4', 'window', 'mutate', 'broken.vm')
 
 
 def build_registry(log: Log, coroutines: bool) -> 'pjrpc.server.MethodRegistry':
@@ -420,6 +462,7 @@ def build_registry(log: Log, coroutines: bool) -> 'pjrpc.server.MethodRegistry':
         else:
             registry.add(fn, name)
     registry.view(make_view(log, coroutines), context='context', prefix='view')
+    registry.view(make_broken_view(log, coroutines), context='context', prefix='broken')
     return registry
 
 
